@@ -940,5 +940,9 @@ Proof.
 Qed.
 Lemma head_paths_ok : forallb (fun np => path_ok [] (snd np) && match held_after [] (snd np) with [] => true | _ => false end) head_paths = true.
 Proof. vm_compute. reflexivity. Qed.
-Lemma seeded_paths_refuted : path_ok [] path_q2 = false /\ path_ok [] path_m2 = false.
-Proof. split; vm_compute; reflexivity. Qed.
+Lemma seeded_paths_refuted : path_ok [] path_q2 = false /\ path_ok [] path_m2 = false /\
+  (path_ok [] path_r2 = true /\ held_after [] path_r2 = [LD]).
+Proof. repeat split; vm_compute; reflexivity. Qed.
+(* a lock left held by a handler that has returned blocks every later handler that needs it, for ever *)
+Lemma leaked_lock_blocks l held q : holds l held = true -> path_ok held (Acq l :: q) = false.
+Proof. intros H. cbn [path_ok]. rewrite H. reflexivity. Qed.
